@@ -8,6 +8,7 @@ package app
 import (
 	"context"
 	"os"
+	"sync/atomic"
 	"crypto/tls"
 	"encoding/json"
 	"fmt"
@@ -42,6 +43,9 @@ type raceSpec struct {
 	Dup      bool       `json:"duplicate_candidate,omitempty"`
 	TurnPref bool       `json:"turn_prefixed_alias,omitempty"`
 	Bogus    bool       `json:"unroutable_candidate,omitempty"`
+	// Sched: the run is driven by the seeded scheduler over the generated yield points of
+	// internal/ice and internal/app (quic-go itself still runs freely between two steps)
+	Sched *verifsim.Strategy `json:"scheduler,omitempty"`
 }
 
 type raceHarness struct{}
@@ -78,6 +82,9 @@ func (raceHarness) Gen(r *verifsim.SplitMix, tier string, idx int) any {
 	sp.Dup = r.Chance(1, 5)
 	sp.TurnPref = r.Chance(1, 6)
 	sp.Bogus = r.Chance(1, 4)
+	if r.Chance(1, 4) {
+		sp.Sched = &verifsim.Strategy{Kind: []string{"rand", "weighted", "pct"}[r.Intn(3)], Seed: r.Next(), D: r.Intn(3), Horizon: 200, MaxW: 6}
+	}
 	return sp
 }
 
@@ -104,6 +111,13 @@ func (raceHarness) Shrink(spec any) []any {
 			c.Paths[i].LossPm = 0
 			out = append(out, c)
 		}
+	}
+	if sp.Sched != nil && sp.Sched.Kind != "fifo" {
+		c := sp
+		st := *sp.Sched
+		st.Kind = "fifo"
+		c.Sched = &st
+		out = append(out, c)
 	}
 	for _, f := range []func(*raceSpec){func(c *raceSpec) { c.Dup = false }, func(c *raceSpec) { c.TurnPref = false }, func(c *raceSpec) { c.Bogus = false }} {
 		c := sp
@@ -152,6 +166,8 @@ func (raceHarness) Run(spec any) (res verifsim.RunResult) {
 	var facts []string
 	var bubblePanic string
 	var simElapsed time.Duration
+	var schedSteps int
+	var schedHash uint64
 	func() {
 		defer func() {
 			if r := recover(); r != nil {
@@ -160,6 +176,20 @@ func (raceHarness) Run(spec any) (res verifsim.RunResult) {
 		}()
 		synctest.Test(admT, func(t *testing.T) {
 			start := time.Now()
+			var sched *verifsim.Sched
+			spawn := func(name string, f func()) { go f() }
+			if sp.Sched != nil {
+				sched = verifsim.New(sp.Seed, *sp.Sched)
+				sched.MaxSteps = 2000000
+				verifsim.S = sched
+				verifsim.Watch(sched)
+				verifsim.SetName("main")
+				spawn = verifsim.Go
+				defer func() {
+					sched.Stop()
+					verifsim.Watch(nil)
+				}()
+			}
 			unet := verifsim.NewUDPNet(sp.Seed)
 			D := unet.NewSock(&net.UDPAddr{IP: net.IPv4(10, 0, 1, 1), Port: 5000})
 			L := unet.NewSock(&net.UDPAddr{IP: net.IPv4(10, 0, 0, 1), Port: 4000})
@@ -201,7 +231,7 @@ func (raceHarness) Run(spec any) (res verifsim.RunResult) {
 			var wg sync.WaitGroup
 			wg.Add(2)
 			// accepting side: transcription of snapshotReceiver.runTransfer's acceptOnce + auth
-			go func() {
+			spawn("L", func() {
 				defer wg.Done()
 				qc, err := ln.Accept(ctx)
 				if err != nil {
@@ -238,9 +268,9 @@ func (raceHarness) Run(spec any) (res verifsim.RunResult) {
 				mu.Lock()
 				acceptAuth = err
 				mu.Unlock()
-			}()
+			})
 			// dialing side: the real ProbeAndDial, then auth as in runICEQUICTransfer
-			go func() {
+			spawn("D", func() {
 				defer wg.Done()
 				prober := ice.VerifNewProber(dtr, logger)
 				qc, err := prober.ProbeAndDial(ctx, cands, quictransport.ClientConfig(), quictransport.DefaultClientQUICConfig(), func(u ice.ProbeUpdate) {
@@ -267,9 +297,18 @@ func (raceHarness) Run(spec any) (res verifsim.RunResult) {
 				mu.Lock()
 				dialAuth = err
 				mu.Unlock()
-			}()
-			wg.Wait()
-			time.Sleep(5 * time.Second) // grace: losers have been told
+			})
+			if sched != nil {
+				var fin atomic.Bool
+				go func() { wg.Wait(); fin.Store(true); sched.Kick() }()
+				sched.Run(func() bool { return fin.Load() }, start.Add(60*time.Second), 0)
+				t1 := time.Now()
+				sched.Run(func() bool { return time.Since(t1) >= 5*time.Second }, t1.Add(6*time.Second), 0)
+				schedSteps, schedHash = sched.Steps, sched.LogHash
+			} else {
+				wg.Wait()
+				time.Sleep(5 * time.Second) // grace: losers have been told
+			}
 			mu.Lock()
 			pathName := func(c *quic.Conn) string {
 				if c == nil {
@@ -373,8 +412,15 @@ func (raceHarness) Run(spec any) (res verifsim.RunResult) {
 		addV("panic", "bubble:"+firstLineApp(bubblePanic), bubblePanic)
 	}
 	sort.Strings(facts)
+	verifsim.S = nil
 	h := verifsim.Mix(sp.Seed, strings.Join(facts, ";"))
 	res.LogHash, res.Steps, res.SimTime = h, len(sp.Paths), simElapsed
+	if sp.Sched != nil {
+		res.Steps = schedSteps
+		res.Counters["scheduled_runs"]++
+		res.Counters["scheduler_steps"] += int64(schedSteps)
+		_ = schedHash
+	}
 	res.Nontrivial = len(sp.Paths) > 1
 	for _, v := range viol {
 		v.LogHash, v.Steps = verifsim.HashStr(h), len(sp.Paths)
